@@ -1207,6 +1207,38 @@ def c41(obs: Observer):
                         return (f'job-list-v{version}-shows-job-of-uncommitted-update',
                                 f'the v{version} job listing of batch {b} (real parse_job_group_jobs_query_v{version}) returns job {x["job_id"]} of '
                                 f'update {row["update_id"]}, which is not committed')
+            # single-object GETs (the lookups behind GET job / job group; the attempts, log and spec routes start from the same lookup):
+            # a committed job is served, a job of an uncommitted update is 404
+            mine = sorted((k[1], j) for k, j in v.jobs.items() if k[0] == b)
+            probe = [x for x in mine if not v.committed(b, x[1]['update_id'])][:3] + [x for x in mine if v.committed(b, x[1]['update_id'])][-3:]
+            for jid, row in probe:
+                try:
+                    w.run(w.fe._get_job(w.app, b, jid))
+                    served = True
+                except Exception as e:   # noqa: BLE001
+                    # 404 = the lookup found nothing; anything raised later (the stand-in file store has no status / spec files for finished
+                    # jobs) means the lookup DID find the row
+                    served = type(e).__name__ != 'HTTPNotFound'
+                    if type(e).__module__.startswith('pymysql'):
+                        raise
+                obs.tag('get-job-read-with-open-update')
+                if served != bool(v.committed(b, row['update_id'])):
+                    return ('get-job-serves-job-of-uncommitted-update' if served else 'get-job-404-for-committed-job',
+                            f'GET job ({b}, {jid}) (real _get_job) {"answers 200" if served else "answers 404"}; the job belongs to update '
+                            f'{row["update_id"]}, which is {"committed" if v.committed(b, row["update_id"]) else "not committed"}')
+            for (bb, g), grow in v.groups.items():
+                if bb == b and g != 0 and grow['update_id'] is not None:
+                    try:
+                        w.run(w.fe._get_job_group(w.app, b, g))
+                        served = True
+                    except Exception as e:   # noqa: BLE001
+                        if type(e).__name__ not in ('HTTPNotFound', 'NonExistentJobGroupError'):
+                            raise
+                        served = False
+                    if served != bool(v.committed(b, grow['update_id'])):
+                        return ('get-job-group-serves-group-of-uncommitted-update' if served else 'get-job-group-404-for-committed-group',
+                                f'GET job group ({b}, {g}) (real _get_job_group) {"answers 200" if served else "answers 404"}; its update '
+                                f'{grow["update_id"]} is {"committed" if v.committed(b, grow["update_id"]) else "not committed"}')
             try:
                 groups, _ = w.run(w.fe._query_job_groups(req, b, 0, None))
             except Exception as e:   # noqa: BLE001
